@@ -90,14 +90,15 @@ Definition sep_bracket (name : str) : option (option N * str) :=
     else Some (None, name)
   end.
 
-(* split_character == "_" *)
+(* split_character == "_"  (repaired K4: identifiers starting with "&_" are split like any other; the
+   test name[0:2] != "&_" or name_split[-3] == "" is gone) *)
 Definition starts_amp_us (name : str) : bool :=
   match name with a :: b :: _ => N.eqb a c_amp && N.eqb b c_us | _ => false end.
 
 Definition sep_underscore (name : str) : option N * str :=
   match rev (split_on c_us name) with
-  | l1 :: l2 :: l3 :: _ =>
-    if is_empty l1 && isdigit l2 && (negb (starts_amp_us name) || is_empty l3)
+  | l1 :: l2 :: _ :: _ =>
+    if is_empty l1 && isdigit l2
     then match before_last c_us name with
          | Some p1 => match before_last c_us p1 with
                       | Some p2 => (Some (int_of l2), p2)
